@@ -1,6 +1,223 @@
-import Model.Writers
-/-! # C12 — placeholder while the proofs are being built -/
+import Proofs.WritersThms
+/-!
+# C12 — Versioned-zone writers are serialized, FIFO and deadlock-free in every schedule
+
+Theorems of record about `Model.Writers` (lean/Model/Writers.lean), the small-step model of `dns/versioned.py`'s
+`Zone.writer`, `_maybe_wakeup_one_waiter_unlocked`, `_end_write*`, `_commit_version*`, `reader`, `_end_read`.
+`Reach c n s`: `s` is reachable from the initial zone by **any** sequence of steps of threads `< n` (any `n`), whatever
+their roles `c.role` (writer that commits / writer that rolls back / reader) and transaction bodies `c.body`;
+one step = one source line that touches the lock, an event or a guarded field.
+All statements are proved through one inductive invariant (`Model.Writers.Inv`, lean/Proofs/Writers*.lean).
+
+Liveness proper ("every waiting writer is *eventually* admitted") needs a fair scheduler and is **partial**: what is
+proved is that some thread can always move while anyone is unfinished (`deadlock_free`), that the holder of the wake-up
+token and the lock holder are never blocked (`token_holder_enabled`, `lock_hold_bounded`), and that a waiter at queue
+position `k` is exactly the `k`-th next admission after the token holder (`bounded_bypass`): under any scheduler that
+keeps scheduling enabled threads it is admitted after the `k + 1` preceding write transactions have ended.
+-/
 namespace C12
 open Model.Writers
-theorem init_reach (c : Cfg) (n : Nat) : Reach c n init := .init
+
+variable {c : Cfg} {n : Nat} {s s' : State}
+
+/-- "at most one write transaction on a versioned zone is open at a time": two threads between admission
+(`self._write_txn = Transaction(..)`) and the end of their transaction are the same thread, and it is `_write_txn`. -/
+theorem mutex (h : Reach c n s) (t u : Tid) (ht : isOwner (s.loc t).pc = true) (hu : isOwner (s.loc u).pc = true) :
+    t = u ∧ s.writeTxn = some t := by
+  have hi := (reach_inv h).lk
+  have h1 := (hi.own t).mp ht
+  have h2 := (hi.own u).mp hu
+  rw [h1] at h2
+  exact ⟨Option.some.inj h2, h1⟩
+
+example : ∃ s, Reach ⟨fun _ => .writer true, fun t x => x ++ [t]⟩ 2 s ∧ isOwner (s.loc 0).pc = true :=
+  ⟨_, .step 0 (.step 0 (.step 0 (.step 0 (.step 0 .init (by decide) rfl) (by decide) rfl) (by decide) rfl) (by decide) rfl)
+    (by decide) rfl, rfl⟩
+
+/-- the critical sections of `_version_lock` exclude each other (what "exactly one thread owns the lock" means in the
+model), and only the thread recorded as holder is inside one. -/
+theorem lock_mutex (h : Reach c n s) (t u : Tid) (ht : holdsLock (s.loc t).pc = true)
+    (hu : holdsLock (s.loc u).pc = true) : t = u ∧ s.lock = some t := by
+  have hi := (reach_inv h).lk
+  have h1 := (hi.lock t).mp ht
+  have h2 := (hi.lock u).mp hu
+  rw [h1] at h2
+  exact ⟨Option.some.inj h2, h1⟩
+
+/-- `token_set`: while `_write_event` is some event `e`, no write transaction is open (except for the instant between
+the token holder's `self._write_txn = ..` and `self._write_event = None`), and `e` has been `set()` unless the thread
+that popped it is still between `popleft()` and `set()` under the lock. -/
+theorem token_set (h : Reach c n s) (e : Ev) (he : s.writeEvent = some e) :
+    (s.writeTxn = none ∨ (s.writeTxn = some (s.owner e) ∧ (s.loc (s.owner e)).pc = .wClrEv)) ∧
+    (s.lock = none → e ∈ s.evSet) := by
+  have hi := reach_inv h
+  obtain ⟨_, _, _, _, hset, htx⟩ := hi.ev.tok e he
+  refine ⟨?_, ?_⟩
+  · rcases htx with h1 | h1
+    · exact .inl h1
+    · exact .inr ⟨(hi.lk.own _).mp (by rw [h1]; rfl), h1⟩
+  · intro hl
+    rcases hset with h1 | h1
+    · exact h1
+    · exact absurd hl h1.2.1
+
+/-- `token_unique`: exactly one thread holds the event that is `_write_event` in its local variable `event`; it is on its
+way to admission (`wait` → re-acquire → test → create the transaction), so no other thread can pass the admission test. -/
+theorem token_unique (h : Reach c n s) (e : Ev) (he : s.writeEvent = some e) :
+    (s.loc (s.owner e)).ev = some e ∧ tokenPc (s.loc (s.owner e)).pc = true ∧ e ∉ s.waiters ∧
+    ∀ u, (s.loc u).ev = some e → u = s.owner e := by
+  have hi := reach_inv h
+  obtain ⟨_, hev, hpc, hnw, _, _⟩ := hi.ev.tok e he
+  exact ⟨hev, hpc, hnw, fun u hu => ((hi.ev.evLt u e hu).2).symm⟩
+
+/-- `queue_exact` (1): every event in `_write_waiters` belongs to exactly one thread, which is parked on it
+(`event.wait()` or the release just before), the event is not set and is not the token; the queue has no duplicates. -/
+theorem queue_sound (h : Reach c n s) :
+    s.waiters.Nodup ∧ ∀ e ∈ s.waiters, (s.loc (s.owner e)).ev = some e ∧ queuedPc (s.loc (s.owner e)).pc = true ∧
+      e ∉ s.evSet ∧ s.writeEvent ≠ some e ∧ ∀ u, (s.loc u).ev = some e → u = s.owner e := by
+  have hi := reach_inv h
+  refine ⟨hi.ev.wqNodup, fun e he => ?_⟩
+  obtain ⟨_, h1, h2, h3, h4⟩ := hi.ev.wq e he
+  exact ⟨h1, h2, h3, h4, fun u hu => ((hi.ev.evLt u e hu).2).symm⟩
+
+/-- `queue_exact` (2): every blocked writer is accounted for: a thread parked in `event.wait()` has its event either in
+the queue or as the token (so a wake-up is never lost: nobody waits on an event that nobody will set). -/
+theorem queue_complete (h : Reach c n s) (t : Tid) (ht : (s.loc t).pc = .wWait) :
+    ∃ e, (s.loc t).ev = some e ∧ (e ∈ s.waiters ∨ s.writeEvent = some e) := by
+  have hi := reach_inv h
+  obtain ⟨h1, h2⟩ := hi.ev.wait t ht
+  rcases hev : (s.loc t).ev with _ | e
+  · exact absurd hev h1
+  · exact ⟨e, rfl, h2 e hev⟩
+
+/-- `queue_exact` (3), the arrival order: the writers in the order of their first critical section in `writer()` are
+the admitted ones, then the token holder, then the owners of the queued events in queue order, then the writer that is
+in its first critical section right now. -/
+theorem queue_exact (h : Reach c n s) : s.arrivals = s.admitted ++ (tokPart s ++ s.waiters.map s.owner ++ inCS s) :=
+  (reach_inv h).q.queue
+
+/-- `no_orphan`: with the lock free, a non-empty waiter queue always has somebody who will pop it: an open write
+transaction or an outstanding token. -/
+theorem no_orphan (h : Reach c n s) (hl : s.lock = none) (htx : s.writeTxn = none) (hev : s.writeEvent = none) :
+    s.waiters = [] := by
+  have hi := reach_inv h
+  apply Classical.byContradiction
+  intro hne
+  rcases hi.ev.orphan hne with h1 | h1 | h1 | h1
+  · exact h1 htx
+  · exact h1 hev
+  · exact h1.1 hl
+  · exact h1.1 hl
+
+/-- `fifo`: "writers are admitted in the order they started waiting": the admission order is a prefix of the arrival
+order (order of the first critical section, in which a writer either is admitted or enqueues itself). -/
+theorem fifo (h : Reach c n s) : s.admitted <+: s.arrivals := fifo_of_inv (reach_inv h).q
+
+/-- `deadlock_free` / no lost wake-up: in every reachable state in which some thread of the pool is not finished, some
+thread of the pool can take a step. -/
+theorem deadlock_free (h : Reach c n s) (t : Tid) (ht : t < n) (hd : (s.loc t).pc ≠ .done) :
+    ∃ u, u < n ∧ (step c s u).isSome := by
+  obtain ⟨u, hu, he⟩ := deadlock_free_aux (reach_inv h) ht hd
+  exact ⟨u, hu, (enabled_iff c s u).mpr he⟩
+
+/-- the holder of the wake-up token is never blocked by anything but a (bounded) lock hold. -/
+theorem token_holder_enabled (h : Reach c n s) (e : Ev) (he : s.writeEvent = some e) (hl : s.lock = none) :
+    (step c s (s.owner e)).isSome := by
+  have hi := reach_inv h
+  obtain ⟨_, hev, hpc, _, hset, _⟩ := hi.ev.tok e he
+  have hin : e ∈ s.evSet := by
+    rcases hset with h1 | h1
+    · exact h1
+    · exact absurd hl h1.2.1
+  apply (enabled_iff c s _).mpr
+  apply free_enabled hi hl
+  · intro hd; rw [hd] at hpc; cases hpc
+  · intro _; exact ⟨e, hev, hin⟩
+
+/-- `bounded_bypass` (safety form of "every waiting writer is eventually admitted once its predecessors end"):
+the writer whose event is at position `k` of the queue in state `s` is, in every later state `s'`, the admission number
+`p = |admitted| + |token holder| + k` (counting from 0): exactly the `k` waiters before it and the token holder are
+admitted in between, nobody else; and every admission needs the previous transaction to have ended
+(`|admitted| = ends + [a transaction is open]`). -/
+theorem bounded_bypass (h : Reach c n s) {k : Nat} {e : Ev} (hk : s.waiters[k]? = some e) (hs : ReachFrom c n s s') :
+    s'.arrivals[s.admitted.length + (tokPart s).length + k]? = some (s.owner e) ∧
+    (∀ hlt : s.admitted.length + (tokPart s).length + k < s'.admitted.length,
+        s'.admitted[s.admitted.length + (tokPart s).length + k] = s.owner e) ∧
+    s'.admitted.length = s'.ends + (if s'.writeTxn = none then 0 else 1) :=
+  bounded_bypass_aux h hk hs
+
+/-- `serial_equivalence`: "the final zone equals the serial application of the committed transactions in admission
+order": `zone.nodes` is the fold of the bodies of the committed transactions, which are the admitted committing
+transactions in admission order (minus the one still open). In particular the private copy taken by the deferred
+`_setup_version` outside the lock is the zone as of admission (`InvSer.snapA`), because only the owner can commit. -/
+theorem serial_equivalence (h : Reach c n s) :
+    s.nodes = applyTxns c s.committed ∧
+    admittedCommitters c s = s.committed ++ curCommitter c s ∧
+    (s.writeTxn = none → s.nodes = applyTxns c (admittedCommitters c s)) := by
+  have hi := (reach_inv h).ser
+  refine ⟨hi.nodes, hi.ac, fun hw => ?_⟩
+  rw [hi.ac, hi.nodes]
+  simp [curCommitter, hw]
+
+/-- the snapshot handed to an admitted writer is the current zone (no lost update): between the return of `writer()` and
+the body, and the version id it was given is the next one. -/
+theorem snapshot_is_current (h : Reach c n s) (t : Tid) (ht : snapAPc (s.loc t).pc = true) :
+    (s.loc t).snap = s.nodes ∧ (s.loc t).vid = s.versions.length + 1 := by
+  have hi := (reach_inv h).ser
+  refine ⟨hi.snapA t ht, hi.vid t ?_⟩
+  revert ht; cases (s.loc t).pc <;> simp
+
+/-- `readers_atomic`: "readers never observe a partially applied transaction": the version a reader holds is an element
+of `_versions`, and every element of `_versions` is the serial application of a prefix of the admitted committing
+transactions (version id = prefix length + 1). -/
+theorem readers_atomic (h : Reach c n s) :
+    (∀ t, readerHasPc (s.loc t).pc = true → (s.loc t).rver ∈ s.versions) ∧
+    ∀ v ∈ s.versions, ∃ i, v = (i + 1, applyTxns c ((admittedCommitters c s).take i)) := by
+  have hi := (reach_inv h).ser
+  refine ⟨hi.rver, fun v hv => ?_⟩
+  obtain ⟨i, hi', hv'⟩ := List.getElem_of_mem hv
+  exact ⟨i, hi.versions i v (by simp [hv', hi'])⟩
+
+/-- `readers_nonblocking` (1): "readers never wait for a write transaction to end": a reader thread is never parked on an
+event; the only thing that can stop it is `_version_lock` being held at this instant. -/
+theorem readers_nonblocking (h : Reach c n s) (t : Tid) (hr : c.role t = .reader) (hd : (s.loc t).pc ≠ .done)
+    (hl : s.lock = none) : (step c s t).isSome := by
+  have hp := reader_pcs h t hr
+  apply (enabled_iff c s t).mpr
+  apply free_enabled (reach_inv h) hl hd
+  intro hw; rw [hw] at hp; cases hp
+
+/-- `readers_nonblocking` (2): every hold of `_version_lock` is a straight-line section of at most 8 steps: the holder is
+never blocked (no `wait`, no second `acquire` under the lock), each of its steps decreases `lockFuel`, and it releases
+when `lockFuel` reaches 0. -/
+theorem lock_hold_bounded (h : Reach c n s) (u : Tid) (hl : s.lock = some u) :
+    lockFuel (s.loc u).pc ≤ 8 ∧
+    ∃ s', step c s u = some s' ∧ lockFuel (s'.loc u).pc < lockFuel (s.loc u).pc ∧
+      ((s'.lock = some u ∧ 0 < lockFuel (s'.loc u).pc) ∨ (s'.lock = none ∧ lockFuel (s'.loc u).pc = 0)) := by
+  have hi := reach_inv h
+  have he := (enabled_iff c s u).mpr (holder_enabled hi hl)
+  obtain ⟨s', hs'⟩ := Option.isSome_iff_exists.mp he
+  exact ⟨lockFuel_le _, s', hs', holder_progress hi.lk hl (step_trans hs')⟩
+
+/-- `readers_nonblocking` (3): the steps of other threads neither move the lock holder nor take the lock from it. -/
+theorem lock_hold_stable (h : Reach c n s) (u t : Tid) (hl : s.lock = some u) (hne : t ≠ u)
+    (hs : step c s t = some s') : s'.lock = some u ∧ s'.loc u = s.loc u :=
+  holder_stable (reach_inv h).lk hl hne (step_trans hs)
+
+/-! ## Non-vacuity: the protocol's rare interleaving is reachable in the model
+
+Writer 0 is admitted, writer 1 queues, writer 0 commits and wakes 1 (token out, event set), and writer 2 arrives
+*between the wake-up and the woken thread re-taking the lock*: it must queue behind the token. -/
+def demoCfg : Cfg := ⟨fun _ => .writer true, fun t x => x ++ [t]⟩
+
+def demoSchedule : List Tid :=
+  [0, 0, 0, 0, 0, 0, 0,            -- writer 0: call, event=None, acquire, test, create txn, clear event, release
+   1, 1, 1, 1, 1, 1, 1,            -- writer 1: call … acquire, test fails, new event, append, release
+   0, 0, 0, 0,                     -- writer 0: setup id, copy, return, body
+   0, 0, 0, 0, 0, 0, 0, 0, 0,      -- writer 0: acquire, append version, prune, nodes, txn=None, test, popleft, set, release
+   2, 2, 2, 2, 2, 2, 2]            -- writer 2: arrives now: test fails because the token is out
+
+example : ∃ s, run demoCfg init demoSchedule = some s ∧ s.writeTxn = none ∧ s.writeEvent = some 0 ∧ s.waiters = [1] ∧
+    s.admitted = [0] ∧ s.arrivals = [0, 1, 2] ∧ s.nodes = [0] := ⟨_, rfl, rfl, rfl, rfl, rfl, rfl, rfl⟩
+
 end C12
